@@ -29,6 +29,9 @@ Proof.
   destruct a, b; simpl; try congruence; intro H.
   - apply mode_eqb_true in H. congruence.
   - apply andb_true_iff in H as [H1 H2]. apply pops_eqb_true in H1. apply mode_eqb_true in H2. congruence.
+  - apply andb_true_iff in H as [H1 H2]. apply pops_eqb_true in H1. apply eqb_prop in H2. congruence.
+  - apply andb_true_iff in H as [H H3]. apply andb_true_iff in H as [H1 H2].
+    apply pops_eqb_true in H1, H2. apply mode_eqb_true in H3. congruence.
 Qed.
 
 Lemma fs_eqb_true a b : fs_eqb a b = true -> a = b.
@@ -92,7 +95,7 @@ Qed.
 
 Lemma reach_of_sound pg sorted s : In s (reach_of pg sorted) -> reachable pg sorted s.
 Proof.
-  unfold reach_of. destruct (closure 5000 (next pg sorted) [init_st] []) as [l|] eqn:E; [|intros []].
+  unfold reach_of. destruct (closure reach_fuel (next pg sorted) [init_st] []) as [l|] eqn:E; [|intros []].
   eapply closure_sound; eauto.
   - intros x [Hx|[]]. subst. constructor.
   - intros x [].
@@ -137,6 +140,9 @@ Proof. apply exists_reachable. vm_compute. reflexivity. Qed.
 Lemma v0_fatal : exists s, reachable v0_progs true s /\ (match pr s with PFatal => true | _ => false end) = true.
 Proof. apply exists_reachable. vm_compute. reflexivity. Qed.
 Lemma v1_fatal : exists s, reachable v1_progs true s /\ (match pr s with PFatal => true | _ => false end) = true.
+Proof. apply exists_reachable. vm_compute. reflexivity. Qed.
+(* proxyFrac.Suicide going on with the stale Active after the wait: the sealed files survive *)
+Lemma stale_bad : exists s, reachable stale_progs true s /\ negb (st_good true true s) = true.
 Proof. apply exists_reachable. vm_compute. reflexivity. Qed.
 Lemma nodel_bad : exists s, reachable nodel_progs true s /\ negb (st_good true true s) = true.
 Proof. apply exists_reachable. vm_compute. reflexivity. Qed.
